@@ -100,6 +100,10 @@ class C16(Prop):
         for n in (7, 33, 40, 66):
             yield {"k": "marginal", "name": "random_clifford_map", "n": n, "M": 320, "seed": base + 300 + n, "pkg": "py"}
         yield {"k": "marginal", "name": "random_clifford_map", "n": 12, "M": 320, "seed": base + 312}
+        # N = 3, 4: every row of the table is a uniform non-identity string -- exact letter probabilities on every qubit of
+        # every row (I: (4^(N-1) - 1) / (4^N - 1), X, Y, Z: 4^(N-1) / (4^N - 1)), many samples
+        yield {"k": "marginal", "name": "random_clifford_map", "n": 3, "M": 20000, "seed": base + 303, "rows": 6, "exact": True}
+        yield {"k": "marginal", "name": "random_clifford_map", "n": 4, "M": 8000, "seed": base + 304, "rows": 8, "exact": True}
         yield {"k": "coin", "seed": base + 6, "M": 4000 * f, "pkg": "py"}
         yield {"k": "bitsigns", "seed": base + 7, "M": 2000 * f, "pkg": "py"}
         yield {"k": "resample", "seed": base + 8}
@@ -182,18 +186,19 @@ class C16(Prop):
             if k == "marginal":
                 be.seed(scn["seed"])
                 n, M = scn["n"], scn["M"]
-                cnt = [[[0, 0, 0, 0] for _ in range(n)] for _row in range(2)]
+                nrows = scn.get("rows", 2)
+                cnt = [[[0, 0, 0, 0] for _ in range(n)] for _row in range(nrows)]
                 signs = [0, 0]
                 for _ in range(M):
                     m = be.p_list(St.random_clifford_map(n))
-                    for row in range(2):
+                    for row in range(nrows):
                         w = m[row]
                         for q in range(n):
                             if w[q] in (0, 1, 2, 3):
                                 cnt[row][q][w[q]] += 1
                     for w in m:
                         signs[1 if w[-1] == 2 else 0] += 1
-                return [{"op": "marginal", "name": scn["name"], "n": n, "M": M, "cnt": cnt},
+                return [{"op": "marginal", "name": scn["name"], "n": n, "M": M, "cnt": cnt, "exact": bool(scn.get("exact"))},
                         {"op": "fair", "name": "random_clifford_map signs n=%d" % n, "c0": signs[0], "c1": signs[1]}]
             if k == "coin":
                 be.seed(scn["seed"])
